@@ -206,6 +206,7 @@ type Explorer struct {
 	M             *Model
 	P             *Program
 	touches       map[*ssa.Function]bool
+	reqTypeSet    map[*types.TypeName]bool
 	statePkgs     map[string]bool // packages holding state-touching code (keepers, servers, their utils): helpers there are inlined
 	loops         map[*ssa.Function]*loopInfo
 	outcomes      []*Outcome
@@ -422,6 +423,10 @@ func (x *Explorer) runBlock(fr *Frame, b *ssa.BasicBlock, pred *ssa.BasicBlock, 
 		}
 		st.loops = append(st.loops, rec)
 		st.events = append(st.events, Event{Kind: "loopenter", Method: tag, Loop: tag, Fn: fr.fn, Seq: len(st.events)})
+		// loop-carried state that is not an SSA φ: local variables whose address is taken (so they live in
+		// memory cells) and that the loop body stores to. Their content at the start of the symbolic
+		// iteration is whatever earlier iterations left, not the pre-loop value: forget it.
+		x.havocLoopMemory(fr, st, b, li.body[b], tag)
 	} else if pred != nil {
 		// ordinary phis: evaluate simultaneously
 		var phis []*ssa.Phi
@@ -439,6 +444,70 @@ func (x *Explorer) runBlock(fr *Frame, b *ssa.BasicBlock, pred *ssa.BasicBlock, 
 		}
 	}
 	x.runInstrs(fr, b, firstNonPhi(b), st, k)
+}
+
+func (x *Explorer) havocLoopMemory(fr *Frame, st *State, header *ssa.BasicBlock, body map[*ssa.BasicBlock]bool, tag string) {
+	type loc struct {
+		a    *ssa.Alloc
+		path string
+		t    types.Type
+	}
+	var locs []loc
+	seen := map[string]bool{}
+	for blk := range body {
+		for _, in := range blk.Instrs {
+			sto, ok := in.(*ssa.Store)
+			if !ok {
+				continue
+			}
+			// address = Alloc or a field path of an Alloc defined outside the loop
+			path := ""
+			v := sto.Addr
+			for i := 0; i < 6; i++ {
+				if fa, ok := v.(*ssa.FieldAddr); ok {
+					path = "." + fieldName(fa.X.Type(), fa.Field) + path
+					v = fa.X
+					continue
+				}
+				break
+			}
+			a, ok := v.(*ssa.Alloc)
+			if !ok || a.Block() == nil || body[a.Block()] {
+				continue
+			}
+			key := fmt.Sprintf("%p%s", a, path)
+			if seen[key] {
+				continue
+			}
+			seen[key] = true
+			locs = append(locs, loc{a, path, sto.Val.Type()})
+		}
+	}
+	sort.Slice(locs, func(i, j int) bool {
+		if locs[i].a.Pos() != locs[j].a.Pos() {
+			return locs[i].a.Pos() < locs[j].a.Pos()
+		}
+		return locs[i].path < locs[j].path
+	})
+	for _, l := range locs {
+		p, ok := fr.env[l.a].(*Ptr)
+		if !ok {
+			continue
+		}
+		o := st.mem[p.O]
+		if o == nil || o.Table != nil {
+			continue
+		}
+		name := tag + "mem:" + l.a.Comment + l.path
+		switch {
+		case isDecType(l.t):
+			o.F[p.Path+l.path] = &DecV{L: linAtom("loop:" + name)}
+		case isSdkIntType(l.t):
+			o.F[p.Path+l.path] = &IntV{L: linAtom("loop:" + name)}
+		default:
+			o.F[p.Path+l.path] = x.typed(st, &Sym{N: name, T: l.t})
+		}
+	}
 }
 
 func (x *Explorer) findPhi(b *ssa.BasicBlock, name string) *ssa.Phi {
